@@ -20,7 +20,7 @@ RULE = ("a case marks a random subset of fields (text, host, integer, boolean, b
         "sensitive position equals the unmasked rendering (non-sensitive AES secrets are compared by decrypting), "
         "mask None changes nothing, documents decode to the masked tree; non-trivial = >= 2 sensitive non-empty "
         "positions at >= 2 depths and >= 1 non-sensitive position; distinct = distinct case content")
-REQUIRED = ("sensitive_lists_checked", "unmasked_reference_checks", "trees_scanned", "documents_scanned", "sensitive_positions_checked", "nonsensitive_positions_checked",
+REQUIRED = ("virtual_renderings_checked", "lists_reassigned_from_own_items", "sensitive_lists_checked", "unmasked_reference_checks", "trees_scanned", "documents_scanned", "sensitive_positions_checked", "nonsensitive_positions_checked",
             "mask:none", "mask:empty", "mask:one-char", "mask:multi-char", "sensitive_in_list_items", "sensitive_in_ctype",
             "sensitive_at_depth>=2")
 ASSUMPTIONS = ["the length rule (mask character repeated to the value's length) is asserted for text values only",
@@ -64,6 +64,7 @@ def generate(rng, ctx):
         "sub.t": _scope(rng), "sub.deep.t": _scope(rng), "plain.t": _scope(rng),
         "items": [_scope(rng) for _ in range(rng.choice([0, 1, 2, 3]))],
         "sitems": [token(rng) for _ in range(rng.choice([0, 1, 2]))],
+        "vtok": token(rng), "reassign": rng.choice([None, None, "slice", "list", "filter"]),
         "titems": [_scope(rng) for _ in range(rng.choice([0, 1, 2]))],
     }
     # all items of one list share the item schema: sensitivity per kind is fixed by the first item
@@ -126,6 +127,11 @@ def run(case, ctx, res):
     tis = cc.Schema()
     _fill_schema(cc, tis, None, method, {k + "1": (k, lay["titems_sens"][k], None) for k in KINDS})
     root.titems = cc.ListField(cc.make_type(tis, "TI", module="vf_types"))
+    # computed (virtual) fields can be sensitive too: rendered only with virtual=True, and then masked
+    vtok = lay.get("vtok") or "tkffffffffffffffff"
+    root.vsecret = cc.VirtualField(lambda c, vtok=vtok: vtok + "-virtual", sensitive=True)
+    root.vplain = cc.VirtualField(lambda c: "plain-virtual")
+    root.sub.vsecret = cc.VirtualField(lambda c, vtok=vtok: vtok + "-subvirtual", sensitive=True)
     # a list of configurations that is sensitive as a whole
     sitem = cc.Schema()
     sitem.owner = cc.StringField()
@@ -151,6 +157,18 @@ def run(case, ctx, res):
         for sc in scopes:
             getattr(cfg, lst).append({})
             assign(getattr(cfg, lst)[-1], sc)
+    how = lay.get("reassign")
+    if how:
+        # lists re-assigned from their own current items (pruned / copied): still typed, still masked
+        for lst in ("items", "titems"):
+            cur = getattr(cfg, lst)
+            if how == "slice":
+                setattr(cfg, lst, cur[0:])
+            elif how == "list":
+                setattr(cfg, lst, list(cur))
+            else:
+                setattr(cfg, lst, [it for it in cur if it is not None])
+        res.count("lists_reassigned_from_own_items")
     stoks = lay.get("sitems", [])
     cfg.sitems = [{"owner": t, "n": i} for i, t in enumerate(stoks)]
     cfg.sub.sitems = [{"owner": t + "-sub", "n": i} for i, t in enumerate(stoks[:1])]
@@ -202,6 +220,35 @@ def run(case, ctx, res):
         if not _check_tree(res, tree, plain_tree, positions, mask, mname, key, "tree"):
             return
         if mask is not None and not _check_sensitive_lists(res, tree, stoks, mask, "tree"):
+            return
+        try:
+            vtree = cfg.to_tree(virtual=True, sensitive_mask=mask)
+        except Exception as exc:
+            res.viol("M-mask", "to_tree-virtual-raises", "to_tree(virtual=True, sensitive_mask=%r) raised %r" % (mask, exc))
+            return
+        res.count("virtual_renderings_checked")
+        vt = lay.get("vtok") or "tkffffffffffffffff"
+        for vpath, text in ((["vsecret"], vt + "-virtual"), (["sub", "vsecret"], vt + "-subvirtual")):
+            got = _dig(vtree, vpath) if _has(vtree, vpath) else "<missing>"
+            if mask is None:
+                ok = got == text
+            elif len(mask) == 1:
+                ok = got == mask * len(text)
+            else:
+                ok = got == mask
+            if find_token_deep(got, vt) and mask is not None:
+                res.viol("M-leak", "unmasked:sensitive-virtual-field", "to_tree(virtual=True, sensitive_mask=%r) shows the sensitive "
+                         "virtual field %s: %r" % (mask, _p(vpath), _short(got)))
+                return
+            if not ok:
+                res.viol("M-mask", "virtual-field", "to_tree(virtual=True, sensitive_mask=%r) renders the sensitive virtual field %s as %r" % (
+                    mask, _p(vpath), _short(got)))
+                return
+        if _dig(vtree, ["vplain"]) != "plain-virtual":
+            res.viol("M-mask", "nonsensitive-altered:virtual", "non-sensitive virtual field rendered as %r under mask %r" % (_dig(vtree, ["vplain"]), mask))
+            return
+        if "vsecret" in tree or "vplain" in tree:
+            res.viol("M-mask", "virtual-without-asking", "virtual fields appear in to_tree() without virtual=True")
             return
         for fmt in case["fmts"]:
             if not trees.in_domain(fmt, tree):
@@ -278,6 +325,14 @@ def _where(path):
     if "t" in path[:-1]:
         return "ctype"
     return "depth%d" % len(path)
+
+
+def _has(tree, path):
+    try:
+        _dig(tree, path)
+        return True
+    except Exception:
+        return False
 
 
 def _dig(tree, path):
